@@ -193,14 +193,15 @@ func (r Relation) Less(v Value) bool {
 		return r.Kind() < v.Kind()
 	}
 	r2 := v.(Relation)
-	if r.attrs.LessNamesSlice(r2.attrs) && !r.attrs.EqualNamesSlice(r2.attrs) {
-		return true
+	if !r.attrs.EqualNamesSlice(r2.attrs) {
+		return r.attrs.LessNamesSlice(r2.attrs)
 	}
 	if r.Count() != r2.Count() {
 		return r.Count() < r2.Count()
 	}
 
-	for i, j := r.ArrayEnumerator(), r2.ArrayEnumerator(); i.MoveNext() && j.MoveNext(); {
+	// Rows in tuple order: the column order of attrs is not canonical (e.g. after a join).
+	for i, j := r.OrderedValues(), r2.OrderedValues(); i.MoveNext() && j.MoveNext(); {
 		left, right := i.Current(), j.Current()
 		if left.Less(right) {
 			return true
